@@ -31,6 +31,17 @@ CLAIMED['C06'] = ('proof',
     'algebraic model extraction from the AST + exhaustive tabulation of the extracted finite state machine',
     'DESIGN.md section C06')
 
+CLAIMED['C10'] = ('proof',
+    'NumDB._find touches its data only through comparisons, so one loop iteration is a finite decision table: the loop body is '
+    'abstractly executed in each of the 27 order types and the action sequence compared with the prefix rules; base case, '
+    'initialisation, result expression, fresh-container (no-alias) rule and the entry layout shared by _parse/read/_find are '
+    'dataflow facts. sa/dt/LEMMA.md lifts this by induction to every registry and every query string, which no finite set of '
+    'sample queries can do.',
+    'Trusted: CPython ast; the induction in sa/dt/LEMMA.md; total order on str. Assumed: entries have equal-length endpoints '
+    '(C11 checks the shipped files), registries are built only by read() (C13).',
+    'decision-table extraction by abstract execution of the loop body over all order types + dataflow rules',
+    'DESIGN.md section C10')
+
 NOT_APPLICABLE = {
 }
 
